@@ -12,7 +12,9 @@ INVARIANTS %(invs)s
 CHECK_DEADLOCK FALSE
 """
 SERVE_CFG = """SPECIFICATION Spec
-CONSTANT Prop = "%s"
+CONSTANTS
+  Prop = "%s"
+  PBug = "none"
 INVARIANT Final
 CHECK_DEADLOCK FALSE
 """
@@ -35,18 +37,22 @@ def describe(e):
 
 
 def run_serve(c, prop, shards, what):
-    """shards: list of driver-argument lists. Returns aggregated stats."""
+    """shards: list of driver-argument lists (run concurrently). Returns aggregated stats."""
     tot = {"served": 0, "configs": 0, "a": 0, "b": 0, "preflights": 0}
-    for k, args in enumerate(shards):
+
+    def one(k, args):
         trace = c.path("%s_%d.ndjson" % (prop, k))
         summ = c.path("%s_%d.json" % (prop, k))
-        c.run_driver(["serve", "-prop", prop, "-trace", trace, "-out", summ] + args,
-                     env={"VERIF_SEED": str(c.seed * 1000 + k)})
+        # shards of one seed share the seed (they deal out the same configuration list)
+        sd = c.seed * 1000 + (k // int(args[args.index("-nshards") + 1]) if "-nshards" in args else k)
+        c.run_driver(["serve", "-prop", prop, "-trace", trace, "-out", summ] + args, env={"VERIF_SEED": str(sd)})
         s = json.load(open(summ))
         bad, res = c.validate_trace("TraceServe", SERVE_CFG % prop, trace, tag="TraceServe_%s_%d" % (prop, k))
-        evs = None
-        if bad or res.get("known"):
-            evs = read_ndjson(trace)
+        evs = read_ndjson(trace) if (bad or res.get("known")) else None
+        return k, s, bad, res, evs
+
+    results = c.parallel([lambda k=k, args=args: one(k, args) for k, args in enumerate(shards)], max_workers=4)
+    for k, s, bad, res, evs in results:
         if res.get("known"):
             listed = [f for f in c.findings if f["property"] == c.pid and f["status"] == "open"
                       and f.get("matcher", {}).get("classifier") == "^C03isF4$"]
